@@ -667,4 +667,397 @@ theorem verifyMsg_success {cfg : Cfg} {S S' : Station} {m : Msg} {o : VOut}
     · simp only [Prod.mk.injEq, Except.ok.injEq] at h; rw [← h.2] at hs; simp at hs
 
 
+
+
+/-! ### issuing API -/
+
+theorem verify_unsigned {cfg : Cfg} {c : Cert} (hs : c.sigBy = none) (att : Option Cert) : c.verify cfg att = false := by
+  unfold Cert.verify
+  split
+  · rfl
+  · split
+    · simp [Cert.verifyIssued, Cert.sigUnder, hs]
+    · simp [Cert.verifySelf, Cert.sigUnder, hs]
+    · rfl
+
+/-- the issuer's remaining chain length allows issuing: every issuing entry still has budget ≥ 1 -/
+def ChainAllows (i : Cert) : Prop := ∀ q ∈ i.issueList, 1 ≤ q.minChain
+
+theorem enoughChain_allows {i : Cert} (h : i.enoughChain = .ok true) : ChainAllows i := by
+  unfold Cert.enoughChain at h
+  split at h
+  · simp at h
+  · rename_i ps hps
+    simp only [Except.ok.injEq, List.all_eq_true, decide_eq_true_eq] at h
+    intro q hq
+    apply h
+    simpa [Cert.issueList, hps] using hq
+
+theorem lastAllChain_mem {i : Cert} {m : Int} (h : i.lastAllChain = some m) : ∃ q ∈ i.issueList, q.minChain = m := by
+  unfold Cert.lastAllChain at h
+  simp only [Option.map_eq_some_iff] at h
+  obtain ⟨q, hq, rfl⟩ := h
+  have := List.mem_of_getLast? hq
+  exact ⟨q, (List.mem_filter.1 this).1, rfl⟩
+
+/-- every issuing entry of a chain-adjusted certificate keeps budget ≥ 1 and is one below an entry of the issuer -/
+theorem setChainLen_budget (c i : Cert) :
+    ∀ p ∈ (c.setChainLen i).issueList, 1 ≤ p.minChain ∧ ∃ q ∈ i.issueList, p.minChain = q.minChain - 1 := by
+  intro p hp
+  unfold Cert.setChainLen at hp
+  split at hp
+  · rename_i hn; simp [Cert.issueList, hn] at hp
+  · rename_i ps hps
+    simp only [Cert.issueList, Option.getD_some, List.mem_filter, decide_eq_true_eq, List.mem_map] at hp
+    obtain ⟨⟨p1, hp1, rfl⟩, hge⟩ := hp
+    refine ⟨hge, ?_⟩
+    split at hp1
+    · rename_i m hm
+      split at hm
+      · obtain ⟨q, hq, hqm⟩ := lastAllChain_mem hm
+        rw [List.mem_map] at hp1
+        obtain ⟨p0, _, rfl⟩ := hp1
+        exact ⟨q, hq, by simp [hqm]⟩
+      · simp at hm
+    · rw [List.mem_flatMap] at hp1
+      obtain ⟨ip, hip, hp1⟩ := hp1
+      split at hp1
+      · rw [List.mem_map] at hp1
+        obtain ⟨_, _, rfl⟩ := hp1
+        exact ⟨ip, hip, rfl⟩
+      · simp at hp1
+
+
+
+
+/-! ### router gate -/
+
+theorem gate_pass {cfg : Cfg} {en hv : Bool} {S S' : Station} {p : Packet} {pl : Nat}
+    (h : gate cfg en hv S p = (S', .pass pl)) :
+    (p = .unsecured pl ∧ en = false ∧ S' = S) ∨
+    (∃ m o, p = .secured (some m) ∧ hv = true ∧ S.verifyMsg cfg m = (S', .ok o) ∧ o.report = .success ∧
+      o.plain = some pl) := by
+  unfold gate at h
+  split at h
+  · simp at h
+  · simp at h
+  · split at h
+    · simp at h
+    · simp only [Prod.mk.injEq, GateOut.pass.injEq] at h
+      rename_i hen
+      exact Or.inl ⟨by rw [h.2], by simpa using hen, h.1.symm⟩
+  · split at h <;> simp at h
+  · rename_i m
+    split at h
+    · simp at h
+    · rename_i hhv
+      split at h
+      · simp at h
+      · rename_i S2 o hv2
+        split at h
+        · simp at h
+        · rename_i hrep
+          split at h
+          · rename_i pl2 hpl
+            simp only [Prod.mk.injEq, GateOut.pass.injEq] at h
+            refine Or.inr ⟨m, o, rfl, by simpa using hhv, ?_, by simpa using hrep, ?_⟩
+            · rw [hv2, h.1]
+            · rw [hpl, h.2]
+          · simp at h
+
+/-- the gate changes the station only by running `verifyMsg` on a decodable secured packet -/
+theorem gate_state (cfg : Cfg) (en hv : Bool) (S : Station) (p : Packet) :
+    (gate cfg en hv S p).1 = match p with
+      | .secured (some m) => if hv then (S.verifyMsg cfg m).1 else S
+      | _ => S := by
+  unfold gate
+  split
+  · rfl
+  · rfl
+  · split <;> rfl
+  · split <;> rfl
+  · rename_i m
+    cases hv with
+    | false => rfl
+    | true =>
+      simp only [Bool.not_true, Bool.false_eq_true, if_false, if_true]
+      split
+      · rename_i h; rw [h]
+      · rename_i h; rw [h]; split
+        · rfl
+        · split <;> rfl
+
+
+
+
+/-- a message can only append to the ticket / authority dictionaries; roots and own certificates stay -/
+structure Store.Grows (a b : Store) : Prop where
+  roots : b.roots = a.roots
+  own : b.own = a.own
+  aas : ∃ l, b.aas = a.aas ++ l
+  ats : ∃ l, b.ats = a.ats ++ l
+
+theorem Store.Grows.refl (a : Store) : Store.Grows a a := ⟨rfl, rfl, ⟨[], by simp⟩, ⟨[], by simp⟩⟩
+
+theorem Store.Grows.trans {a b c : Store} (h1 : Store.Grows a b) (h2 : Store.Grows b c) : Store.Grows a c := by
+  obtain ⟨l1, h1a⟩ := h1.aas; obtain ⟨l2, h2a⟩ := h2.aas
+  obtain ⟨k1, h1t⟩ := h1.ats; obtain ⟨k2, h2t⟩ := h2.ats
+  exact ⟨h2.roots.trans h1.roots, h2.own.trans h1.own, ⟨l1 ++ l2, by rw [h2a, h1a, List.append_assoc]⟩,
+    ⟨k1 ++ k2, by rw [h2t, h1t, List.append_assoc]⟩⟩
+
+theorem addAA_grows {cfg : Cfg} {st st' : Store} {s : SC} (h : st.addAA cfg s = .ok st') : Store.Grows st st' := by
+  unfold Store.addAA at h
+  split at h
+  · cases h; exact Store.Grows.refl _
+  · split at h
+    · simp at h
+    · cases h; exact Store.Grows.refl _
+    · simp only [Except.ok.injEq] at h
+      split at h
+      · subst h; exact ⟨rfl, rfl, ⟨[s], rfl⟩, ⟨[], by simp⟩⟩
+      · subst h; exact Store.Grows.refl _
+
+theorem addAT_grows {cfg : Cfg} {st st' : Store} {s : SC} (h : st.addAT cfg s = .ok st') : Store.Grows st st' := by
+  unfold Store.addAT at h
+  split at h
+  · cases h; exact Store.Grows.refl _
+  · split at h
+    · simp at h
+    · cases h; exact Store.Grows.refl _
+    · simp only [Except.ok.injEq] at h
+      split at h
+      · subst h; exact ⟨rfl, rfl, ⟨[], by simp⟩, ⟨[s], rfl⟩⟩
+      · subst h; exact Store.Grows.refl _
+
+theorem verifySeq1_grows {cfg : Cfg} {st st' : Store} {c : Cert} {r : Option SC}
+    (h : st.verifySeq1 cfg c = .ok (st', r)) : Store.Grows st st' := by
+  unfold Store.verifySeq1 at h
+  split at h
+  · cases h; exact Store.Grows.refl _
+  · split at h
+    · simp at h
+    · cases h; exact Store.Grows.refl _
+    · simp only at h
+      split at h
+      · split at h
+        · simp at h
+        · rename_i st2 hadd
+          cases h; exact addAT_grows hadd
+      · cases h; exact Store.Grows.refl _
+
+/-- a one-certificate chain check that does not return a ticket leaves the library untouched -/
+theorem verifySeq1_none {cfg : Cfg} {st st' : Store} {c : Cert}
+    (h : st.verifySeq1 cfg c = .ok (st', none)) : st' = st := by
+  unfold Store.verifySeq1 at h
+  split at h
+  · simp at h
+  · split at h
+    · simp at h
+    · cases h; rfl
+    · simp only at h
+      split at h
+      · split at h <;> simp at h
+      · cases h; rfl
+
+theorem onSuccess_grows (cfg : Cfg) (S : Station) (m : Msg) : Store.Grows S.store (S.onSuccess cfg m).1.store := by
+  unfold Station.onSuccess
+  split
+  · exact Store.Grows.refl _
+  · split
+    · simpa using Store.Grows.refl S.store
+    · unfold Station.notifyReceivedCa
+      simp only
+      split
+      · simpa using Store.Grows.refl S.store
+      · rename_i st hadd
+        simpa using addAA_grows hadd
+
+theorem verifyWith_grows (cfg : Cfg) (S : Station) (m : Msg) (a : SC) :
+    Store.Grows S.store (S.verifyWith cfg m a).1.store := by
+  unfold Station.verifyWith
+  split
+  · exact Store.Grows.refl _
+  · split
+    · have := onSuccess_grows cfg S m
+      split <;> (rename_i h; rw [h] at this; exact this)
+    · exact Store.Grows.refl _
+
+/-- whatever is received, the library only grows (appended tickets / authorities) -/
+theorem verifyMsg_grows (cfg : Cfg) (S : Station) (m : Msg) : Store.Grows S.store (S.verifyMsg cfg m).1.store := by
+  unfold Station.verifyMsg
+  split
+  · split <;> exact Store.Grows.refl _
+  · split
+    · exact Store.Grows.refl _
+    · split
+      · simpa using Store.Grows.refl S.store
+      · exact verifyWith_grows cfg S m _
+  · split
+    · split
+      · exact Store.Grows.refl _
+      · split <;> simpa using Store.Grows.refl S.store
+      · rename_i st a hseq
+        exact (verifySeq1_grows hseq).trans (verifyWith_grows cfg { S with store := st } m a)
+    · exact Store.Grows.refl _
+
+/-! ### the verdict as a function of (library, message) only -/
+
+def onSuccessCore (cfg : Cfg) (st : Store) (hs : Bool) (m : Msg) : Store × Option Err :=
+  if !hs then (st, none)
+  else match m.reqCert with
+    | none => (st, none)
+    | some c =>
+      match st.addAA cfg ⟨c, none⟩ with
+      | .error e => (st, some e)
+      | .ok st' => (st', none)
+
+def verifyWithCore (cfg : Cfg) (st : Store) (hs : Bool) (m : Msg) (a : SC) : Store × Except Err VOut :=
+  match Station.judge cfg m a with
+  | .error e => (st, .error e)
+  | .ok o =>
+    if o.report == .success then
+      match onSuccessCore cfg st hs m with
+      | (st', none) => (st', .ok o)
+      | (st', some e) => (st', .error e)
+    else (st, .ok o)
+
+/-- `VerifyService.verify` seen from the library: no timer, no P2PCD lists, no earlier traffic -/
+def verifyMsgCore (cfg : Cfg) (st : Store) (hs : Bool) (m : Msg) : Store × Except Err VOut :=
+  match m.signer with
+  | .selfS => if m.psid == 37 then (st, .ok { report := .unsupportedSignerIdentifierType }) else (st, .error .exception)
+  | .digest h =>
+    if m.psid == 37 then (st, .ok { report := .unsupportedSignerIdentifierType })
+    else match find st.ats h with
+      | none => (st, .ok { report := .signerCertificateNotFound })
+      | some a => verifyWithCore cfg st hs m a
+  | .certs cs =>
+    match cs with
+    | [c] =>
+      match st.verifySeq1 cfg c with
+      | .error e => (st, .error e)
+      | .ok (_, none) => (st, .ok { report := .inconsistentChain })
+      | .ok (st', some a) => verifyWithCore cfg st' hs m a
+    | _ => (st, .ok { report := .unsupportedSignerIdentifierType })
+
+@[simp] theorem notifyUnknown_hasSign (S : Station) (h : Nat) : (S.notifyUnknown h).hasSign = S.hasSign := rfl
+@[simp] theorem note_hasSign (S : Station) (h : Nat) : (S.note h).hasSign = S.hasSign := by
+  unfold Station.note; split <;> rfl
+
+theorem onSuccess_core (cfg : Cfg) (S : Station) (m : Msg) :
+    ((S.onSuccess cfg m).1.store, (S.onSuccess cfg m).2) = onSuccessCore cfg S.store S.hasSign m := by
+  unfold Station.onSuccess onSuccessCore
+  cases hs : S.hasSign with
+  | false => simp
+  | true =>
+    cases hrc : m.reqCert with
+    | none => simp
+    | some c =>
+      simp only [Bool.not_true, Bool.false_eq_true, if_false, Station.notifyReceivedCa, afterInline_store]
+      cases hadd : addAA cfg S.store { c := c, att := none } with
+      | error e => simp
+      | ok st => simp
+
+theorem verifyWith_core (cfg : Cfg) (S : Station) (m : Msg) (a : SC) :
+    ((S.verifyWith cfg m a).1.store, (S.verifyWith cfg m a).2) = verifyWithCore cfg S.store S.hasSign m a := by
+  unfold Station.verifyWith verifyWithCore
+  cases hj : Station.judge cfg m a with
+  | error e => rfl
+  | ok o =>
+    simp only
+    by_cases hr : (o.report == .success) = true
+    · simp only [hr, if_true]
+      have := onSuccess_core cfg S m
+      rw [← this]
+      cases hos : Station.onSuccess cfg S m with
+      | mk S' oe => cases oe <;> rfl
+    · simp only [hr]; rfl
+
+theorem verifyMsg_core (cfg : Cfg) (S : Station) (m : Msg) :
+    ((S.verifyMsg cfg m).1.store, (S.verifyMsg cfg m).2) = verifyMsgCore cfg S.store S.hasSign m := by
+  unfold Station.verifyMsg verifyMsgCore
+  cases hsg : m.signer with
+  | selfS => simp only; split <;> rfl
+  | digest h =>
+    simp only
+    split
+    · rfl
+    · cases hf : find S.store.ats h with
+      | none => simp
+      | some a => exact verifyWith_core cfg S m a
+  | certs cs =>
+    match cs with
+    | [] => rfl
+    | _ :: _ :: _ => rfl
+    | [c] =>
+      simp only
+      cases hseq : verifySeq1 cfg S.store c with
+      | error e => rfl
+      | ok r =>
+        obtain ⟨st, oa⟩ := r
+        cases oa with
+        | none => simp only; split <;> simp
+        | some a => exact verifyWith_core cfg { S with store := st } m a
+
+/-- the verdict (report / exception, certificate id, plain message) and the resulting library depend on the library
+    and on whether a sign service is attached – not on the P2PCD / timer bookkeeping, i.e. not on earlier traffic
+    except through certificates it added -/
+theorem verdict_depends_on_store_only (cfg : Cfg) (S T : Station) (m : Msg) (hst : S.store = T.store)
+    (hs : S.hasSign = T.hasSign) :
+    (S.verifyMsg cfg m).2 = (T.verifyMsg cfg m).2 ∧ (S.verifyMsg cfg m).1.store = (T.verifyMsg cfg m).1.store := by
+  have h1 := verifyMsg_core cfg S m
+  have h2 := verifyMsg_core cfg T m
+  rw [hst, hs, ← h2] at h1
+  simp only [Prod.mk.injEq] at h1
+  exact ⟨h1.2, h1.1⟩
+
+
+
+
+theorem judge_report {cfg : Cfg} {m : Msg} {a : SC} {o : VOut} (h : Station.judge cfg m a = .ok o) :
+    o.report = .invalidCertificate ∨ o.report = .invalidTimestamp ∨ o.report = .incompatibleProtocol ∨
+    o.report = .success ∨ o.report = .falseSignature := by
+  unfold Station.judge at h
+  repeat' split at h
+  all_goals first
+    | (cases h; simp)
+    | simp at h
+
+theorem verifyWithCore_ok {cfg : Cfg} {st st' : Store} {hs : Bool} {m : Msg} {a : SC} {o : VOut}
+    (h : verifyWithCore cfg st hs m a = (st', .ok o)) : Station.judge cfg m a = .ok o := by
+  unfold verifyWithCore at h
+  split at h
+  · simp at h
+  · rename_i o' hj
+    split at h
+    · split at h
+      · simp only [Prod.mk.injEq, Except.ok.injEq] at h; rw [hj, h.2]
+      · simp at h
+    · simp only [Prod.mk.injEq, Except.ok.injEq] at h; rw [hj, h.2]
+
+theorem unresolved_core {cfg : Cfg} {st st' : Store} {hs : Bool} {m : Msg} {o : VOut}
+    (h : verifyMsgCore cfg st hs m = (st', .ok o))
+    (hr : o.report = .signerCertificateNotFound ∨ o.report = .inconsistentChain ∨
+          o.report = .unsupportedSignerIdentifierType) : st' = st := by
+  have hj : ∀ {st1 st2 : Store} {a : SC}, verifyWithCore cfg st1 hs m a = (st2, .ok o) → False := by
+    intro st1 st2 a hw
+    have := judge_report (verifyWithCore_ok hw)
+    rcases hr with hr | hr | hr <;> rw [hr] at this <;> simp at this
+  unfold verifyMsgCore at h
+  split at h
+  · split at h
+    · simp only [Prod.mk.injEq] at h; exact h.1.symm
+    · simp at h
+  · split at h
+    · simp only [Prod.mk.injEq] at h; exact h.1.symm
+    · split at h
+      · simp only [Prod.mk.injEq] at h; exact h.1.symm
+      · exact (hj h).elim
+  · split at h
+    · split at h
+      · simp at h
+      · simp only [Prod.mk.injEq] at h; exact h.1.symm
+      · exact (hj h).elim
+    · simp only [Prod.mk.injEq] at h; exact h.1.symm
+
+
 end FlexModel.Sec
